@@ -14,7 +14,7 @@ TEXT = {
  "C03": ("exploration", "3.C03", "differential monitor: same byte stream under two chunkings must give identical observation logs",
          "All 2^(n-1) compositions of short broker streams and all 1/2/3-cut placements, header cuts, byte-at-a-time and random compositions of long ones are fed to the real protocol; the ordered log of callbacks, Deferred outcomes, writes, close calls and the final timer table must equal that of one-packet-per-chunk delivery."),
  "C04": ("exploration", "3.C04", "trace monitor over the boundary history (connect automaton, loss notification counter) on a virtual reactor",
-         "Exhaustive handshake matrix (all 256 return codes x profiles x versions x keepalive x transports) plus all short orderings of CONNACK/timeout/loss and seeded walks; each connect() Deferred and each loss notification is counted and timed on virtual time."),
+         "Exhaustive handshake matrix (all 256 return codes x profiles x versions x keepalive x transports) plus all short orderings of CONNACK/timeout/loss/second connect() (after a refusal, on a lost protocol, from the errback of a refusal) and seeded walks; each connect() Deferred and each loss notification is counted and timed on virtual time."),
  "C05": ("exploration", "3.C05", "trace monitor: per-publish automaton keyed by unique payload token, Deferred fire taps",
          "Every publish Deferred of every history is matched against the acknowledgements actually delivered; small-scope sweep to depth 4/5 plus seeded walks with duplicated, late, stray and out-of-order acknowledgements."),
  "C06": ("exploration", "3.C06", "trace monitor: per-step prompt/acknowledgement counting and per-identifier QoS 2 exchange automaton across reconnects",
@@ -38,7 +38,7 @@ TEXT = {
  "C15": ("exploration", "3.C15", "trace monitor on virtual time: PINGREQ gaps, deadline aborts, silence with keepalive 0 and after loss",
          "Keepalive matrix (k up to 65535, PINGRESP at every characteristic offset, runs of up to 200 periods) on both transports and all profiles plus seeded walks."),
  "C16": ("exploration", "3.C16", "escaped-exception traps on every entry point + entitlement monitor fed by the strict reference decoder",
-         "All short byte strings over a reduced alphabet, all single-byte mutations/truncations/extensions of valid packets, every first byte with short bodies and random streams are injected into 14 contexts (profiles x states with requests pending); no exception may escape, every delivery/success must be entitled by a well-formed packet."),
+         "All short byte strings over a reduced alphabet, all single-byte mutations/truncations/extensions of valid packets, every first byte with short bodies and random streams are injected into 16 contexts (profiles x states with requests pending, identifiers small, around 256 and around 0x4000); no exception may escape, every delivery/success must be entitled by a well-formed packet."),
  "C17": ("exploration", "3.C17", "trace monitor: set of identifiers of unfinished Deferreds per factory at every API return; range check on every write",
          "All histories, plus identifier-counter placements at 65526..65535 with requests of every kind unfinished, two-address walks and (thorough) a walk that wraps on its own."),
  "C18": ("exploration", "3.C18", "streaming parse of each transport's output by the strict reference decoder, tagged with the transport phase",
@@ -89,7 +89,7 @@ def main():
                      "kind_free_text": "runtime monitors over boundary traces of the real code on a virtual reactor; reference codec; differential and crash-point workloads"}],
         "checks": checks,
         "not_applicable": na,
-        "notes": "bin/check <id> [--tier quick|thorough] [--seed N] (VERIF_SEED / VERIF_TIER honoured). Exit 0 held, 1 VIOLATION, 2 INCONCLUSIVE, 3 rig error. Known findings: known_findings.json. Seeded faults: seeded/. Self-test: selftest/.",
+        "notes": "bin/check <id> [--tier quick|thorough] [--seed N] (VERIF_SEED / VERIF_TIER honoured). Exit 0 held, 1 VIOLATION, 2 INCONCLUSIVE, 3 rig error. Known findings: known_findings.json (28 repaired defects listed as fixed, 2 open). Independent seeded changes: seeded/S01..S71 (all caught). Self-test: selftest/run_mutants.py (seeded faults, reversals of the fix commits, --refactors for behaviour-preserving and allowed-alternative implementations that must stay silent), selftest/seed_sweep.sh.",
     }
     with open("/verif/MANIFEST.json", "w") as f:
         json.dump(m, f, indent=1)
